@@ -4,7 +4,7 @@ from __future__ import annotations
 import ast
 
 from sa.pyfront import call_name
-from . import lib_gatefn, lib_guards, lib_err, lib_sweep
+from . import scopes, lib_gatefn, lib_guards, lib_err, lib_sweep, lib_mem
 from sa.cfront import LIB_TUS
 
 LEVEL = "other"
@@ -54,3 +54,4 @@ def run(ctx):
     src = ast.unparse(lt)
     ctx.ob(rule, "load_tables|ll", "ts.load_tables(tables._ll_tables" in src or "load_tables(tables._ll_tables" in src, tm.loc(lt),
            "TreeSequence.load_tables hands the low-level tables to _tskit.TreeSequence.load_tables")
+    lib_mem.c_lints(ctx, ctx.program(), scopes.lib_scope("C02"))
